@@ -159,6 +159,14 @@ def check_rule(c):
     try:
         # collision forcing: the same labels are first marked under the OTHER preset (result discarded)
         transform.mark_heads_by_rules(build(mt), mark_heads_preset='ptb' if c['preset'] == 'negra' else 'negra')
+        if c.get('pos', 0) % 2 == 0:
+            # ... or, on every other case: under the SAME preset, then a call that is rejected (unknown preset) -
+            # a failed call in the middle of a history must leave nothing behind
+            transform.mark_heads_by_rules(build(mt), mark_heads_preset=c['preset'])
+            try:
+                transform.mark_heads_by_rules(build(mt), mark_heads_preset='no-such-preset')
+            except Exception:
+                pass
         if c.get('via') == 'brackets':
             # as PTB users get their trees: bracketed text read with gf_split
             t = build_via_brackets(mt, scratch(), **cli_options({'gf_split': True}))
@@ -371,3 +379,28 @@ def run_chunk(chunk):
             for v in vs:
                 res.violation(v['kind'], v['where'], v['case'], v['detail'], v['what'])
     return res
+
+
+# --- non-initial states: the oracle of this property in every state of the live-state pool
+# (vt/livepool.py: BFS over live objects; vt/liveoracles.py: the oracles)
+from .. import liveoracles as _lo
+_plan0, _run_chunk0, _check_case0 = plan, run_chunk, check_case
+
+
+def plan(tier, seed):
+    p = _plan0(tier, seed)
+    p['chunks'] = list(p['chunks']) + _lo.plan_chunks(tier)
+    p['assumptions'] = list(p.get('assumptions', [])) + [_lo.assumption()]
+    return p
+
+
+def run_chunk(chunk):
+    if chunk.get('kind') == 'live':
+        return _lo.run_chunk(ID, chunk, Result())
+    return _run_chunk0(chunk)
+
+
+def check_case(case):
+    if isinstance(case, dict) and isinstance(case.get('live'), dict):
+        return _lo.replay(case)
+    return _check_case0(case)
